@@ -3,18 +3,8 @@ From BHW Require Import Lib.Base Lib.Digits Lib.ListAux Model.Helper Model.Keys 
   Model.Bip39M Spec.Curve.
 From BHWGen Require Import Consts.
 
-(* base64.b64encode, standard alphabet, '=' padding *)
-Definition b64_alphabet : list Z :=
-  map Z.of_nat (seq 65 26) ++ map Z.of_nat (seq 97 26) ++ map Z.of_nat (seq 48 10) ++ [43; 47].
-Definition b64c (v : Z) : Z := nth (Z.to_nat v) b64_alphabet 0.
-Fixpoint b64encode (b : bytes) : str :=
-  match b with
-  | [] => []
-  | [x] => [b64c (x / 4); b64c ((x mod 4) * 16); 61; 61]
-  | [x; y] => [b64c (x / 4); b64c ((x mod 4) * 16 + y / 16); b64c ((y mod 16) * 4); 61]
-  | x :: y :: z :: r =>
-      b64c (x / 4) :: b64c ((x mod 4) * 16 + y / 16) :: b64c ((y mod 16) * 4 + z / 64) :: b64c (z mod 64) :: b64encode r
-  end.
+(* base64.b64encode: Lib/PyInt.v (shared with Py/Interp.v) *)
+From BHW Require Export Lib.PyInt.
 
 Definition hexstr (b : bytes) : str :=
   flat_map (fun x => let h c := if c <? 10 then c + 48 else c + 87 in [h (x / 16); h (x mod 16)]) b.
